@@ -7,7 +7,9 @@ from ..oracle import htmlscan, skeleton
 
 PAYLOAD = ['"', "'", '<', '>', '&', '&quot;', '&#34;', '&#x22;', '&amp;', '&lt;', '&gt;', '\\"', "\\'", '\\<', '\\>', '\\&',
            'onerror=', 'onmouseover=', 'alert(1)', 'javascript:', '%22', '%3C', '%', 'x', 'a', '/', ':', '@', '=', '(', ')',
-           '[', ']', '\\[', '\\]', '`', '*', '_', '<b>', '</a>', '<script>', '-->', '&#', ';', '#', '?', 'é', '\\', ' ']
+           '[', ']', '\\[', '\\]', '`', '*', '_', '<b>', '</a>', '<script>', '-->', '&#', ';', '#', '?', 'é', '\\', ' ',
+           # what a template engine or str.format would react to
+           '{', '}', '{}', '{0}', '{inner}', '{target}', '{title}', '%s', '%(a)s', '$x', '${x}', '{{', '}}']
 
 
 def payload(t, lo=1, hi=6, no_space=False, avoid='', frags=None):
